@@ -13,12 +13,26 @@ RMAX = 7 * 86400  # expected build constants (checked against what the driver lo
 
 # ----------------------------------------------------------------------------- MC histories
 
-def mc(module, cfg, pid, workers, timeout, tag=None):
+def mc(module, cfg, pid, workers, timeout, tag=None, kinds=()):
+    """Exhaustive run. ONE worker on purpose: which history TLC remembers for a state depends on the
+    order in which workers reach it, and the histories are replayed - a single worker keeps the check
+    deterministic. `kinds`: edit kinds that must occur in the printed histories (vacuity guard)."""
+    workers = 1
     res = lib.tlc(module, cfg=cfg, pid=pid, workers=workers, timeout=timeout, tag=tag or cfg)
     lib.tlc_must_pass(res, f"{cfg}: exhaustive exploration of L2 against L1")
     tups = parse_tuples(res["out"])
     cex = [t[1:] for t in tups if t[0] == "CEX"]
     beh = [t[1:] for t in tups if t[0] == "BEH"]
+    if kinds:
+        off = 2 if module == "KMemberOfMC" else 1      # KMemberOfMC tuples carry the initial graph mask first
+        seen = set()
+        for t in cex + beh:
+            n = t[off - 1]
+            seen |= {t[off + 3 * i] for i in range(n)}
+        missing = set(kinds) - seen
+        if missing:
+            lib.tool_error(f"{cfg}: vacuous exploration, edit kinds {sorted(missing)} never occur in any printed history")
+        res["kinds_seen"] = sorted(seen)
     return res, cex, beh
 
 
